@@ -373,7 +373,7 @@ func init() {
 					}),
 					urgent(stepDo("cut-nonvoter-off-after-timeoutnow", func(w *World) bool {
 						for _, m := range w.live {
-							if m.Kind == "TN" && m.To == nv && m.HandledAt > 0 {
+							if m.Kind == "TN" && m.To == nv && m.St == mDelivered {
 								return true
 							}
 						}
